@@ -163,7 +163,7 @@ func build(r req, i int) (httpReq, error) {
 				"fields": map[string]interface{}{"rid": rid(i, j), colName(r.Name): val(r.Typ, j)}})
 		}
 		body, err = msgpack.Marshal(rows)
-	case "lp", "lpv1", "lpv2", "lp2m":
+	case "lp", "lpv1", "lpv2", "lp2m", "lpbadm":
 		switch r.Ep {
 		case "lpv1":
 			h.Path = "/write?db=d&precision=us"
@@ -178,8 +178,17 @@ func build(r req, i int) (httpReq, error) {
 		if r.Ep == "lp2m" {
 			fmt.Fprintf(&sb, "ma rid=%di %d\n", rid(i, 2), baseUS+rid(i, 2))
 		}
+		meas := "m"
+		if r.Ep == "lpbadm" {
+			// six valid measurements and one invalid NAME: whatever the map iteration order, some valid
+			// measurement is visited before the invalid one with probability 6/7 per request
+			for k := 0; k < 6; k++ {
+				fmt.Fprintf(&sb, "ma%d rid=%di %d\n", k+1, rid(i, 2+k), baseUS+rid(i, 2+k))
+			}
+			meas = "bad.name"
+		}
 		for j := 0; j < 2; j++ {
-			fmt.Fprintf(&sb, "m rid=%di", rid(i, j))
+			fmt.Fprintf(&sb, "%s rid=%di", meas, rid(i, j))
 			if v, ok := lpVal(r.Typ, j); ok {
 				fmt.Fprintf(&sb, ",%s=%s", colName(r.Name), v)
 			}
@@ -648,6 +657,11 @@ func main() {
 					if r.Ep == "lp2m" {
 						ids = append(ids, rid(i, 2))
 					}
+					if r.Ep == "lpbadm" {
+						for k := 0; k < 6; k++ {
+							ids = append(ids, rid(i, 2+k))
+						}
+					}
 					switch {
 					case st == 0:
 						accVec += "F"
@@ -710,9 +724,20 @@ func main() {
 						for _, id := range ids {
 							if row, ok := rids[id]; ok {
 								sig := fmt.Sprintf("rejected-request-stored-rows:%s:%d:%s:%s", r.Ep, st, r.Name, r.Typ)
-								if r.Ep == "lp2m" && row["__meas"] == "ma" {
-									// the other measurement of the same request was buffered before this one failed
-									sig = "rejected-request-stored-rows:lp-multi-measurement-partial-write"
+								if m, _ := row["__meas"].(string); (r.Ep == "lp2m" || r.Ep == "lpbadm") && strings.HasPrefix(m, "ma") {
+									// another measurement of the same request was buffered before the request was
+									// rejected; the rejection class (status + cause) is part of the mechanism
+									cause := "other"
+									lr := strings.ToLower(sr.Resp[i])
+									switch {
+									case strings.Contains(lr, "invalid measurement name"):
+										cause = "invalid-measurement-name"
+									case strings.Contains(lr, "convert"):
+										cause = "conversion-error"
+									case strings.Contains(lr, "schema churn"):
+										cause = "schema-churn"
+									}
+									sig = fmt.Sprintf("rejected-request-stored-rows:lp-multi-measurement-partial-write:%d:%s", st, cause)
 								}
 								addV(sig,
 									wit(map[string]interface{}{"request": i + 1, "status": st, "response": sr.Resp[i], "stored_row": row}))
